@@ -74,6 +74,10 @@ def mk_case(n, parents, uses, rng, rev, noclass=False, kinds=KINDS, headerless=(
         else:
             flags = ("x" if (us or rng.chance(1, 2)) else "") + ("u" if rng.chance(2, 5) else "")
         if extras:
+            if i in headerless and rng.chance(1, 8):
+                flags = "ne"          # an empty file: nothing, or only what the dressing puts there (blank lines, comments, a byte order mark)
+            elif i not in headerless and rng.chance(1, 8):
+                flags += "d"          # `module <stem>`: a header without parent
             flags += dress(rng)
         fs.append("%s:%s:%s:%s:%s" % (NAMES[i], par, "+".join(mem) or "-", "+".join(us) or "-", flags or "-"))
     if noclass:
@@ -170,6 +174,27 @@ def gen_ghosts(ctx, cases):
         ctx.count("uses of entities without a file: random workspaces")
 
 
+def gen_odd_files(ctx, cases):
+    """deterministic: empty files (zero bytes / a byte order mark / blank lines / comments only) and modules as the used entity,
+    the parent and the user of classes and header-less files; a chain of 24 classes (every request walks the whole chain)"""
+    for odd in ("ne", "nem", "neb", "nec", "nebclmr", "d", "xd", "xud", "dcm"):
+        for us in ("aQa", "aQa+aGhost", "aGhost+aQa"):
+            fs = ["aQa:-:m1+f1:%s:%s" % ("aQb" if "e" not in odd else "-", odd),
+                  "aQb:aQa:m1:%s:xu" % us,
+                  "aQc:-:f1:%s:nxu" % us,
+                  "aQd:aQb:m2:-:-"]
+            for order in ((0, 1, 2, 3), (3, 2, 1, 0), (1, 0, 3, 2)):
+                cases.append("lock %s %s" % (",".join(fs), ",".join("%s@%d" % (k, i) for i in order for k in KINDS)))
+                ctx.count("empty files / modules as used entity and parent (deterministic)")
+    depth = 24
+    for top in ("-", "aMissing", "aD00", "aD%02d" % (depth - 1)):       # a root, a missing parent, a self parent, one big cycle
+        fs = ["aD%02d:%s:%s:%s:%s" % (i, ("aD%02d" % (i - 1)) if i else top, "m1" if i % 5 == 0 else "-", "aGhost" if i == depth - 1 else "-", "xu" if i == depth - 1 else "-")
+              for i in range(depth)]
+        for at in (depth - 1, 0):
+            cases.append("lock %s %s" % (",".join(fs), ",".join("%s@%d" % (k, at) for k in KINDS)))
+            ctx.count("chain of %d classes (deterministic)" % depth)
+
+
 def ghost_uses(case):
     """the uses entries of the case that name no file of the workspace"""
     files = [f.split(":") for f in case.split()[1].split(",")]
@@ -203,6 +228,10 @@ def gen_cases(ctx):
     rng.shuffle(gcases)
     cases[ng:] = gcases[:FIRST_GHOSTS]
     hrest += gcases[FIRST_GHOSTS:]
+    no = len(cases)
+    gen_odd_files(ctx, cases)
+    hrest += cases[no:]
+    del cases[no:]
     if quick:
         # every parent assignment over 1..3 classes, both analysis orders, one random uses-graph each
         for n in (1, 2, 3):
@@ -248,7 +277,7 @@ def shape(case):
     par = {}
     for f in files:
         w = f.split(":")
-        if w[1] != "-" and "n" not in (w[4] if len(w) > 4 else ""):
+        if w[1] != "-" and not (set("nd") & set(w[4] if len(w) > 4 else "")):
             par[w[0].upper()] = w[1].upper()
     selfp = any(k == v for k, v in par.items())
     cyc = False
